@@ -110,7 +110,7 @@ PROPS = {
                       "quick": {"n": 2, "len": 0, "timeout": 600}, "thorough": {"n": 8, "len": 0, "timeout": 3000}}],
             "modelled": CTL + [
                 "volume level ('identical content on every replica'): c13_snapshot_identical_on_all_replicas over the whole-volume model Model/Cluster.lean — for ANY history every volume snapshot a replica directory holds is the volume's content at the moment it was taken (ghost `taken`), whether the directory was attached then or got the snapshot through a rebuild; tie: clusterdiff takes user-created volume snapshots through the real Controller.Snapshot and compares, per directory, which snapshots it holds and the writes frozen in each","data half: in the rebuild profile, once all three real replicas are RW, volume snapshots are taken through the real controller between foreground writes and the chains and volume images of the three replicas are compared with each other (request cmp) and with the model"]},
-    "C18": {"lean": CTLMOD, "prefixes": ["c18_", "c07_single_wo", "ctl_reachable_inv", "run_rf", "step_rf"],
+    "C18": {"lean": CTLMOD + ["JivaVerif.Properties.C18Cluster"], "prefixes": ["c18_", "c07_single_wo", "ctl_reachable_inv", "run_rf", "step_rf", "invM_step", "countP_range_update"],
             "runs": [ctl("membership", 480, 30, 9000, 40, 17)], "modelled": CTL},
     "C01": {"lean": ["JivaVerif.Properties.C01"],
             "runs": [rep("io", 480, 30, 8000, 45), rep("mix", 320, 30, 6000, 45, 1),
